@@ -3,8 +3,12 @@
 set -e
 cd "$(dirname "$0")"
 export CARGO_NET_OFFLINE=true
-[ -f harness/Cargo.lock ] || cp /repo/Cargo.lock harness/Cargo.lock
-(cd harness && cargo build --offline --quiet 2>/dev/null && cargo build --offline --quiet --profile nochk 2>/dev/null) || echo "harness build failed (checks will report it)"
+python3 - <<'PY' || echo "harness build failed (checks will report it)"
+import sys
+sys.path.insert(0, "driver")
+import kv
+kv.build_harness(("dev", "nochk"))
+PY
 (cd coq && ./gen.sh && timeout 3000 make -j16 >/dev/null 2>&1) || echo "coq build failed (checks will report it)"
 python3 - <<'PY'
 import sys
